@@ -50,7 +50,7 @@ def _merge_counter(dst, src):
 def _worker(cid, seed, tier, wid, nworkers, max_runs, deadline, conn,
             run_wall):
     """Run indexes wid, wid+nworkers, ... and send one aggregate result."""
-    agg = {'n': 0, 'fps': set(), 'nontrivial': 0, 'probes': {}, 'faults': {},
+    agg = {'n': 0, 'evals': 0, 'fps': set(), 'nontrivial': 0, 'probes': {}, 'faults': {},
            'sim_s': 0.0, 'steps': 0, 'violations': [], 'harness': [],
            'policies': {}, 'samples': [], 'sigcount': {}}
     try:
@@ -72,6 +72,9 @@ def _worker(cid, seed, tier, wid, nworkers, max_runs, deadline, conn,
             finally:
                 faulthandler.cancel_dump_traceback_later()
             agg['n'] += 1
+            agg['evals'] += res.get('evaluations', 1)
+            for fp in res.get('case_fingerprints', ()):
+                agg['fps'].add(int(fp[:15], 16))
             if res.get('nontrivial'):
                 agg['nontrivial'] += 1
                 agg['fps'].add(int(res['fingerprint'][:15], 16))
@@ -115,7 +118,7 @@ def run_batch(cid, tier, seed, max_runs, budget_s, nworkers, run_wall=120):
         p.start()
         cc.close()
         procs.append((p, pc))
-    total = {'n': 0, 'fps': set(), 'nontrivial': 0, 'probes': {},
+    total = {'n': 0, 'evals': 0, 'fps': set(), 'nontrivial': 0, 'probes': {},
              'faults': {}, 'sim_s': 0.0, 'steps': 0, 'violations': [],
              'harness': [], 'policies': {}, 'samples': [], 'sigcount': {}}
     grace = budget_s + run_wall + 60
@@ -136,6 +139,7 @@ def run_batch(cid, tier, seed, max_runs, budget_s, nworkers, run_wall=120):
                 p.kill()
             continue
         total['n'] += agg['n']
+        total['evals'] += agg.get('evals', agg['n'])
         total['fps'].update(agg['fps'])
         total['nontrivial'] += agg['nontrivial']
         _merge_counter(total['probes'], agg['probes'])
@@ -235,7 +239,8 @@ def write_evidence(cid, chk, tier, seed, total, wall, nviol, known_hit,
     os.makedirs(EVIDENCE_DIR, exist_ok=True)
     n = total['n']
     cov = {
-        'evaluations': n,
+        'evaluations': total.get('evals', n) or n,
+        'runs': n,
         'distinct_nontrivial': len(total['fps']),
         'rule': chk.RULE,
         'samples': total['samples'][:4],
